@@ -73,12 +73,13 @@ def extract(g, X):
 
     def hexranges():
         b = X.fn_body(strl, "next_hex_byte")
-        tabs = X.hex_nibble_tables(b)
+        tabs = X.hex_nibble_tables(b, strl)
         rows = [X.ordered_by_key(r, [48, 65, 97]) for r, _, _ in tabs]
-        if len(rows) != 2 or rows[0] != rows[1]:
+        if len(rows) != 2 or rows[0] != rows[1] or not rows[0]:
             raise ValueError("nibble arms differ: %r" % (rows,))
-        end = [v for v, e in tabs[0][1] if re.fullmatch(r"return\s+Ok\(\s*None\s*\)\s*;?", e)]
-        end2 = [v for v, e in tabs[1][1] if re.fullmatch(r"self\.back\(\)\?\s*;\s*0", e)]
+        end = [k for k, o in tabs[0][1].items() if o.how == "return" and o.value == ("Ok", ("None",)) and not o.effects]
+        # at the same byte the second read steps back and supplies a 0
+        end2 = [k for k, o in tabs[1][1].items() if o.how == "value" and o.value == 0 and o.effects == ("self.back()?",)]
         if len(end) != 1 or end != end2:
             raise ValueError("terminator arms")
         sh = re.search(r"\(\s*\w+\s*<<\s*(\d+)\s*\)\s*\|\s*\w+", b)
